@@ -380,3 +380,22 @@ def ea_story_move(ro_id, target, refs, with_target=True):
 def ea_item_move(ro_id, story, item, refs):
     return element_action(ro_id, 'MOVE', ea_target(story, item),
                           [ref_elem('itemID', r) for r in refs])
+
+
+def cdataize(xml_text, every=1):
+    """The same document with (every n-th) leaf text that holds an escaped character written as a
+    CDATA section instead: <storyID>P&amp;L</storyID> -> <storyID><![CDATA[P&L]]></storyID>.
+    Parsers read both forms as the same text."""
+    import re
+    n = [0]
+
+    def sub(m):
+        body = m.group(2)
+        if '&#' in body or ']]' in body or not ('&amp;' in body or '&lt;' in body or '&gt;' in body):
+            return m.group(0)
+        n[0] += 1
+        if n[0] % every:
+            return m.group(0)
+        raw = body.replace('&lt;', '<').replace('&gt;', '>').replace('&quot;', '"').replace('&apos;', "'").replace('&amp;', '&')
+        return f'{m.group(1)}<![CDATA[{raw}]]>{m.group(3)}'
+    return re.sub(r'(<[A-Za-z][^<>/]*>)([^<>]+)(</[A-Za-z][^<>]*>)', sub, xml_text)
